@@ -119,6 +119,12 @@ def c02_errors(q, U, cand_positions, ncols, sel):
     return []
 
 
+# recipes with a recorded finding about labeled index candidates (known_findings.jsonl): they get such candidates too, with a tagged signature.
+# The remaining recipes without z["arbitrary_idx"] are exercised with unlabeled index candidates only (stated in the evidence as a bound).
+LABELED_CANDIDATES_RECORDED = {"CoreSet", "Quire", "Badge", "TypiClust", "TypiClust-nors", "RegressionTree-random", "RegressionTree-diversity",
+                               "RegressionTree-representativity"}
+
+
 def build_case(case, ml=NAN, classes=(0, 1), relabel=None):
     z = ZOO[case["cls"]]
     X, y = make_data(case["dseed"], case["n"], case["nl"], z["kind"], case["dup"])
@@ -130,9 +136,14 @@ def build_case(case, ml=NAN, classes=(0, 1), relabel=None):
     elif mode == "idx":
         if len(unl) == 0:
             return None
-        if z["arbitrary_idx"] and rs.rand() < 0.4:
+        if (z["arbitrary_idx"] or case["cls"] in LABELED_CANDIDATES_RECORDED) and rs.rand() < 0.4:
+            # arbitrary index sets: labeled samples may be offered as candidates too (documented: `candidates` are indices of samples in (X, y)).
+            # Recipes that are known to cope (z["arbitrary_idx"]) keep their plain signature; for the others a failure in such a case is tagged,
+            # so that a recorded finding about labeled candidates cannot hide a different failure of the same strategy.
             k = int(rs.randint(1, len(X) + 1))
             cand = rs.choice(len(X), k, replace=False)
+            if not z["arbitrary_idx"] and not np.isnan(y[cand]).all():
+                case["_tag"] = "[labeled index candidates]"
         else:
             cand = rs.choice(unl, int(rs.randint(1, len(unl) + 1)), replace=False)
         if rs.rand() < 0.3:
@@ -456,8 +467,8 @@ def run_case(prop, case):
     fails = []
 
     def fail(what, detail):
-        fails.append({"sig": f"{case['cls']}:{what}", "detail": detail,
-                      "replay": {"module": "bounded.pool", "prop": prop, "case": case}})
+        fails.append({"sig": f"{case['cls']}{case.get('_tag', '')}:{what}", "detail": detail,
+                      "replay": {"module": "bounded.pool", "prop": prop, "case": {k_: v_ for k_, v_ in case.items() if k_ != "_tag"}}})
     if case["kind"] == "query":
         run_query_case(prop, case, fail)
     elif case["kind"] == "loop":
